@@ -37,7 +37,7 @@ def truth(a, s):
 
 
 def to_json(a):
-    """the JSON a user would write for this formula (AtLeast carries no sign in JSON)"""
+    """the JSON a user would write for this formula (an AtLeast with an explicit sign carries it as "sign")"""
     c = a["c"]
     if c in ("var", "str"):
         return {"id": a["id"]}
@@ -49,15 +49,16 @@ def to_json(a):
         d["condition"] = to_json(a["cond"]); d["consequence"] = to_json(a["cons"]); return d
     d["propositions"] = [to_json(x) for x in a["args"]]
     if c in ("AtLeast", "AtMost"): d["value"] = a["v"]
+    if c == "AtLeast" and a.get("sign") is not None: d["sign"] = a["sign"]
     return d
 
 
 def json_ast(a):
-    """the constructor calls plog.from_json makes for to_json(a): variables instead of strings, no sign"""
+    """the constructor calls plog.from_json makes for to_json(a): variables instead of strings"""
     c = a["c"]
     if c in ("var", "str"):
         return {"c": "var", "id": a["id"], "lo": 0, "hi": 1}
-    b = {k: v for k, v in a.items() if k not in ("$k", "sign")}
+    b = {k: v for k, v in a.items() if k not in ("$k",)}
     for k in ("arg", "cond", "cons"):
         if k in b: b[k] = json_ast(b[k])
     if "args" in b: b["args"] = [json_ast(x) for x in b["args"]]
@@ -116,7 +117,7 @@ def do_case(ctx, inp):
             if got != want:
                 ctx.fail("from_list-truth-table-row-wrong", {"sigma": s, "evaluate": None if got is None else int(got), "truth_function": want})
                 break
-    if not has_explicit_sign(a):
+    if True:
         j = json.loads(json.dumps(to_json(a)))
         oj = pg.from_json(j)
         ctx.tags["via-from_json"] += 1
